@@ -38,6 +38,7 @@ from typing import (
 import optree._C as _C
 from optree.accessor import PyTreeAccessor
 from optree.typing import NamedTuple, T, is_namedtuple_instance, is_structseq_instance
+from optree.utils import total_order_sorted
 
 
 if TYPE_CHECKING:
@@ -3460,8 +3461,12 @@ def prefix_errors(  # noqa: C901
             prefix_tree_keys_set = set(prefix_tree_keys)
             full_tree_keys_set = set(full_tree_keys)
             if prefix_tree_keys_set != full_tree_keys_set:
-                missing_keys = sorted(prefix_tree_keys_set.difference(full_tree_keys_set))
-                extra_keys = sorted(full_tree_keys_set.difference(prefix_tree_keys_set))
+                missing_keys = total_order_sorted(
+                    prefix_tree_keys_set.difference(full_tree_keys_set),
+                )
+                extra_keys = total_order_sorted(
+                    full_tree_keys_set.difference(prefix_tree_keys_set),
+                )
                 key_difference = ''
                 if missing_keys:
                     key_difference += f'\nmissing key(s):\n    {missing_keys}'
